@@ -229,10 +229,15 @@ package keeper
 //@ func (OperatorHooksWrapper).AfterOperatorKeyRemovalInitiated
 //@   requires h.keeper != nil
 //@   flag noframe
-//@   flag pure=ToConsAddr,ChainIDWithoutRevision,GetExocoreValidator,Logger,Error
+//@   flag pure=ToConsAddr,ChainIDWithoutRevision,GetExocoreValidator,GetOperatorPrevConsKeyForChainID,Logger,Error
 //@   flag havoc=SetOptOutInformation,CompleteOperatorKeyRemovalForChainID
 //@   before[C16.aokri.lookup] GetExocoreValidator requires arg_addr == res_ToConsAddr_0
 //@   before[C16.aokri.queue]  SetOptOutInformation requires defined(res_GetExocoreValidator_1) && res_GetExocoreValidator_1 && arg_addr == operator
 //@   before[C16.aokri.now]    CompleteOperatorKeyRemovalForChainID requires defined(res_GetExocoreValidator_1) && !res_GetExocoreValidator_1 &&
 //@        arg2 == operator && arg3 == chainID
 //@   ensures[C16.aokri.decided] chainID == res_ChainIDWithoutRevision_0 ==> defined(res_GetExocoreValidator_1)
+// C07 (a consensus address that is in the active validator set stays resolvable and slashable until its unbonding has
+// ended): the removal is completed at once only if NEITHER the key being removed NOR a key the operator replaced earlier
+// in this epoch (which is then still validating) is in the active validator set.
+//@   before[C07.aokri.prevactive] CompleteOperatorKeyRemovalForChainID requires defined(res_GetOperatorPrevConsKeyForChainID_0) &&
+//@        (res_GetOperatorPrevConsKeyForChainID_0 ==> !res_GetExocoreValidator_1)
